@@ -571,7 +571,7 @@ class Assume:
                         if sv.parent is not None and sv.parent[0] == obj.reg[2] and sv.parent[1] == 4 and sv.parent[2] == 0:
                             env.facts = env.facts | {('ibanstruct', obj.reg[2])}
                         return [env]
-                    return self.match_refine(obj.lang, sv, truth, env)
+                    return self.match_refine(obj.lang.anchored(name) if obj.lang is not None else None, sv, truth, env)
             if isinstance(obj, Ext) and obj.name == 're' and name in ('match', 'search') and len(node.args) >= 2:
                 pv = self.eval(node.args[0], env)
                 sv = self.eval(node.args[1], env)
@@ -586,7 +586,8 @@ class Assume:
                     flags = self.regex_flags(fl)
                     if flags is None:
                         return [env]
-                    return self.match_refine(self.regex_lang(pat, flags), sv, truth, env)
+                    lg = self.regex_lang(pat, flags)
+                    return self.match_refine(lg.anchored(name) if lg is not None else None, sv, truth, env)
         return None
 
     # ------------------------------------------------------------------ regex refinement
@@ -662,13 +663,41 @@ class Assume:
             if m is None or e.dead:
                 continue
             if bind is not None:
-                e.vars[bind.id] = MatchV(lang, m, alt, False)
+                e.vars[bind.id] = MatchV(lang, m, alt, False, nl)
             out.append(e)
         return out
+
+    def _alt_feasible_fixed(self, items, classes, open_end, nl):
+        """Can a string whose i-th character lies in classes[i] match the item sequence (from the start; up to the
+        end unless open_end; nl: one line feed after the match)?  Exact simulation over positions."""
+        n = len(classes) - (1 if nl else 0)
+        if n < 0 or (nl and not (classes[-1] & self.ctx.S.NL)):
+            return False
+        reach = {0}
+        for it in items:
+            nxt = set()
+            for p in reach:
+                k = 0
+                q = p
+                while True:
+                    if k >= it.lo:
+                        nxt.add(q)
+                    if q >= n or (it.hi is not None and k >= it.hi) or not (classes[q] & it.cls):
+                        break
+                    q += 1
+                    k += 1
+            reach = nxt
+            if not reach:
+                return False
+        return True if open_end else (n in reach)
 
     def _refine_alt(self, lang, alt, nl, s, env):
         S = self.ctx.S
         items = list(alt.items)
+        if not s.fixed and s.hi is not None and (s.lo or 0) == s.hi:
+            s = S.set_len(env, s, s.hi, s.hi) or s
+        if s.fixed and not self._alt_feasible_fixed(items, [env.cls(c) for c in s.pre], lang.anch_end is None, nl):
+            return None
         lo = sum(it.lo for it in items)
         hi = None if any(it.hi is None for it in items) else sum(it.hi for it in items)
         open_end = lang.anch_end is None
@@ -717,20 +746,24 @@ class Assume:
         s2 = S.ensure_suf(env, s2, len(sufitems) + len(trail))
         anysuf = frozenset().union(*sufitems) if sufitems else frozenset()
         anypre = frozenset().union(*[it.cls for it in items[:npre]]) if npre else frozenset()
+        lo2 = s2.lo or 0
+        dl = s2.parent[1] if s2.parent else 0
+        dr = s2.parent[2] if s2.parent else 0
         for i, c in enumerate(s2.pre):
             if i < npre:
                 S.refine_cell(env, c, items[i].cls, must=True)
             elif i - npre < len(lead):
                 S.refine_cell(env, c, lead[i - npre], must=True)
             else:
-                S.refine_cell(env, c, midcls | anysuf, must=False)
+                # position i is one of the fixed suffix items only in a string of at most i + len(sufitems) characters
+                S.refine_cell(env, c, midcls | anysuf if lo2 <= i + len(sufitems) else midcls, must=False)
         for j, c in enumerate(s2.suf):
             if j < len(sufitems):
                 S.refine_cell(env, c, sufitems[j], must=True)
             elif j - len(sufitems) < len(trail):
                 S.refine_cell(env, c, trail[j - len(sufitems)], must=True)
             else:
-                S.refine_cell(env, c, midcls | anypre, must=False)
+                S.refine_cell(env, c, midcls | anypre if lo2 <= j + npre else midcls, must=False)
         S.refine_cell(env, s2.body, midcls, must=False)
         S._check_feasible(env, s2)
         return s2
